@@ -387,6 +387,70 @@ def r07f(ctx, rep, cr):
     rep.floor('R07f', 'functions reachable from the loaders', len(readers), 5)
 
 
+def _router_slabs(cr, name, depth=2, seen=None):
+    """SlabRouter fields a SlabRouter method touches, itself or through other SlabRouter methods"""
+    seen = seen if seen is not None else set()
+    f = cr.fns.get(name)
+    if f is None or name in seen:
+        return set()
+    seen.add(name)
+    out = set()
+    for g in A.with_closures(cr.fns, name):   # `index.get(key).and_then(|id| self.embeddings.get(id))`: closures count
+        out |= {x.split('.')[-1] for x in A.field_reads(g) if x.startswith(SR + '.')}
+        if depth > 0:
+            for c in A.calls(g):
+                if c.resolved.startswith(SR + '::') and '{closure' not in c.resolved:
+                    out |= _router_slabs(cr, c.resolved, depth - 1, seen)
+    return out
+
+
+def r07g(ctx, rep, cr):
+    rep.rule('R07g', 'a restore that copies a decoded image into the live store key by key reads the image through every slab the store '
+                     'writes keys to: in TensorStore::restore_from_bytes the SlabRouter method(s) that enumerate the decoded router touch '
+                     'every slab SlabRouter::exists consults (what "this key is in the store" means), and enumerator and getter together '
+                     'touch every slab SlabRouter::put routes to (the slab set is what SlabRouter::clear clears). An enumerator '
+                     'that walks one slab only (scan_filter_map: metadata) silently drops the key classes kept elsewhere — cache-ring keys, '
+                     'embedding keys — although the live store was cleared first')
+    f = rep.require_fn('R07g', cr, TS + 'TensorStore::restore_from_bytes')
+    if f is None:
+        return
+    slabs = _router_slabs(cr, SR + '::clear', 0)
+    need_enum = _router_slabs(cr, SR + '::exists') & slabs
+    need_all = _router_slabs(cr, SR + '::put') & slabs
+    rep.floor('R07g', 'slabs cleared by SlabRouter::clear', len(slabs), 7)
+    if not need_enum or not need_all:
+        rep.violation('R07g', f, 'anchor', f.loc(), 'anchor-missing: SlabRouter::exists / put touch no slab field')
+        return
+    defs = A.Defs(f)
+    enum, got = set(), set()
+    names = []
+    for fn_ in [f] + [g for n, g in cr.fns.items() if n.startswith(f.name + '::{closure')]:
+        d_ = defs if fn_ is f else A.Defs(fn_)
+        for c in A.calls(fn_):
+            if not c.resolved.startswith(SR + '::') or not c.args or c.args[0][0] == 'k':
+                continue
+            fs, root = A.origin_fields(fn_, c.args[0][1][0], d_)
+            fs = A.place_fields(c.args[0][1]) + fs
+            if any(x.endswith('TensorStore.router') for x in fs):
+                continue   # the live router
+            sl = _router_slabs(cr, c.resolved)
+            got |= sl
+            if c.dest and fn_.locals[c.dest[0]].startswith('std::vec::Vec<'):
+                enum |= sl
+                names.append(lib.short(c.resolved))
+    if not names:
+        # nothing is copied key by key (the image is swapped in whole): nothing to miss
+        rep.holds('R07g', f, 'no key-by-key copy', 'the decoded router is not enumerated')
+        return
+    miss_e, miss_a = sorted(need_enum - enum), sorted(need_all - got)
+    if miss_e or miss_a:
+        rep.violation('R07g', f, 'partial-enumeration', f.loc(),
+                      'the decoded image is enumerated with %s, which never looks at %s: keys kept there are not copied back, and the live '
+                      'store was cleared first' % (', '.join(sorted(set(names))), ', '.join('SlabRouter.' + x for x in (miss_e or miss_a))))
+    else:
+        rep.holds('R07g', f, 'enumerator covers the key slabs', '%s reads %s' % (', '.join(sorted(set(names))), ', '.join(sorted(enum))))
+
+
 def run(ctx, rep):
     cr = ctx.crate('tensor_store')
     r07a(ctx, rep, cr)
@@ -395,3 +459,4 @@ def run(ctx, rep):
     r07d(ctx, rep, cr)
     r07e(ctx, rep, cr)
     r07f(ctx, rep, cr)
+    r07g(ctx, rep, cr)
